@@ -82,7 +82,6 @@ C(x)      == [d \in D |-> x]
 A(p)      == p.amt[ND]
 P(len, x) == [len |-> len, amt |-> C(x)]
 PTotal(ps)   == Total(D, Sched(0, ps))[ND]
-ZeroOf(ps)   == [i \in 1..Len(ps) |-> P(ps[i].len, "0")]
 SumOver(S, f(_)) == FoldSet(LAMBDA x, acc : BigAdd(acc, f(x)), "0", S)
 Last(h) == h[Len(h)]
 
